@@ -150,9 +150,10 @@ type Program struct {
 	ctx    context.Context
 	cancel context.CancelFunc
 
-	msgs     chan Msg
-	errs     chan error
-	finished chan struct{}
+	msgs       chan Msg
+	errs       chan error
+	finished   chan struct{}
+	finishOnce sync.Once
 
 	// where to send output, this will usually be os.Stdout.
 	output io.Writer
@@ -234,6 +235,7 @@ func NewProgram(model Model, opts ...ProgramOption) *Program {
 	p := &Program{
 		initialModel: model,
 		msgs:         make(chan Msg),
+		finished:     make(chan struct{}),
 	}
 
 	// Apply all options to the program.
@@ -529,9 +531,11 @@ func (p *Program) Run() (Model, error) {
 	p.handlers = channelHandlers{}
 	cmds := make(chan Cmd)
 	p.errs = make(chan error)
-	p.finished = make(chan struct{}, 1)
 
 	defer p.cancel()
+	// Release every Wait caller on every return path, including the early
+	// returns below that never reach shutdown.
+	defer p.finishOnce.Do(func() { close(p.finished) })
 
 	switch p.inputType {
 	case defaultInput:
@@ -754,9 +758,9 @@ func (p *Program) shutdown(kill bool) {
 	}
 
 	_ = p.restoreTerminalState()
-	if !kill {
-		p.finished <- struct{}{}
-	}
+
+	// Release every Wait caller, however the program ended.
+	p.finishOnce.Do(func() { close(p.finished) })
 }
 
 // recoverFromPanic recovers from a panic, prints the stack trace, and restores
@@ -831,9 +835,9 @@ func (p *Program) RestoreTerminal() error {
 //
 // If the altscreen is active no output will be printed.
 func (p *Program) Println(args ...interface{}) {
-	p.msgs <- printLineMessage{
+	p.Send(printLineMessage{
 		messageBody: fmt.Sprint(args...),
-	}
+	})
 }
 
 // Printf prints above the Program. It takes a format template followed by
@@ -845,7 +849,7 @@ func (p *Program) Println(args ...interface{}) {
 //
 // If the altscreen is active no output will be printed.
 func (p *Program) Printf(template string, args ...interface{}) {
-	p.msgs <- printLineMessage{
+	p.Send(printLineMessage{
 		messageBody: fmt.Sprintf(template, args...),
-	}
+	})
 }
